@@ -17,9 +17,11 @@ CONSTANTS
   AllowUnsub = TRUE
   AllowParentCancel = FALSE
   CtxCancels = 0
+  Redundant = 0
   WaitLocksMu = FALSE
   StatsBuffered = TRUE
   RecvWaitsFirst = FALSE
   KF_UnsubWindow = FALSE
+  CtlBuf = 0
 INVARIANTS TypeOK ExactlyOnceInv
 CHECK_DEADLOCK FALSE
